@@ -602,6 +602,7 @@ func main() {
 		check2D(r)
 		ballStage(r, false)
 		queryStage(r, false)
+		containStage(r, false)
 		r.NontrivialAdd(2)
 		r.Sample(c)
 		r.Finish()
@@ -621,5 +622,6 @@ func main() {
 	r.Isolate("solid-lattice", func() { solidLattice(r, th) })
 	r.Isolate("feature-balls", func() { ballStage(r, th) })
 	r.Isolate("shape-queries", func() { queryStage(r, th) })
+	r.Isolate("containment", func() { containStage(r, th) })
 	r.Finish()
 }
